@@ -1,5 +1,6 @@
 import DiscretModel.Model.Proto
 import DiscretModel.Model.Sync
+import DiscretModel.Model.Date
 /-
 Model driver for engine `sync` (same op file as `dv-sync run`, see harness/sync/src/main.rs).
 Every op line answers `<result> | <dump of every peer>`; malformed lines answer `bad-op`.
@@ -120,6 +121,11 @@ def stepLine (s : St) (line : String) : St × String :=
     | "clock" =>
       match nat? rest "t" with
       | some t => answer s { s.w with now := t } "ok"
+      | none => (s, "bad-op")
+    | "dates" =>
+      -- date_utils::date / date_next_day of one (possibly negative, possibly unrepresentable) date
+      match int? rest "t" with
+      | some t => answer s s.w s!"date={Discret.Date.date t} next={Discret.Date.dateNextDay t} inrange={decide (Discret.Date.InRange t)}"
       | none => (s, "bad-op")
     | "new" =>
       match nat? rest "p", nat? rest "row", nat? rest "room", nat? rest "ent", nat? rest "val", nat? rest "sig" with
